@@ -317,6 +317,11 @@ func writtenGlobals(dir string, entries []string) ([]string, error) {
 					// the value of an element / field is passed: a copy (of the element)
 					return false
 				}
+				if id, ok := par.Fun.(*ast.Ident); ok && (id.Name == "len" || id.Name == "cap") {
+					if _, user := funcs[id.Name]; !user {
+						return false // the built-in len / cap of the pointee: a read
+					}
+				}
 				cname := ""
 				switch fx := par.Fun.(type) {
 				case *ast.Ident:
